@@ -894,3 +894,45 @@ pub fn sample_one<S: Strategy>(s: &S, seed: u64) -> S::Value {
     let mut r = TestRunner::new_with_rng(Config::default(), rng);
     s.new_tree(&mut r).expect("strategy").current()
 }
+
+// ---------------------------------------------------------------------------
+// Coverage-guided fuzzing bridge: libFuzzer bytes -> proptest strategy -> the same oracle
+// ---------------------------------------------------------------------------
+
+/// Generates one case of `strat` from raw bytes (proptest's pass-through RNG consumes the
+/// bytes as its random stream) and runs the property closure on it. Panics on a violation
+/// (which is what libFuzzer records), prints the case first. Known findings and
+/// `inconclusive:` results are tolerated so that a campaign does not rediscover one
+/// failure forever.
+pub fn fuzz_one<C, S, F>(data: &[u8], property: &str, strat: &S, f: F)
+where
+    C: Debug + Serialize,
+    S: Strategy<Value = C>,
+    F: Fn(&C, &mut CaseCtx) -> Result<(), String>,
+{
+    static KNOWN: std::sync::OnceLock<KnownFindings> = std::sync::OnceLock::new();
+    let known = KNOWN.get_or_init(KnownFindings::load);
+    let rng = TestRng::from_seed(RngAlgorithm::PassThrough, data);
+    let mut runner = TestRunner::new_with_rng(Config { failure_persistence: None, ..Config::default() }, rng);
+    let Ok(tree) = strat.new_tree(&mut runner) else { return };
+    let case = tree.current();
+    let mut ctx = CaseCtx::default();
+    let r = catch_unwind(AssertUnwindSafe(|| f(&case, &mut ctx)));
+    let r = match r {
+        Ok(r) => r,
+        Err(p) => Err(format!("panic: {}", panic_msg(&p))),
+    };
+    if let Err(msg) = r {
+        if msg.starts_with("inconclusive:") {
+            return;
+        }
+        if let Some(sig) = &ctx.signature {
+            if known.known(property, sig).is_some() {
+                return;
+            }
+        }
+        eprintln!("FUZZ-VIOLATION property={property}: {msg}");
+        eprintln!("case: {}", serde_json::to_string(&case).unwrap_or_default());
+        std::process::abort();
+    }
+}
